@@ -141,6 +141,19 @@ def gen_ops(tier, rng):
                 for dl in ["n", "0", "10", "11"]:          # the data argument is given as a length (0 = empty, non-nil)
                     for idx in range(-1, d + 1):
                         ops.append((f"api {fam} {d} {p} idx {dl} {idx} {','.join(psh)}", {"cat": "grid-idx"}))
+    # stream Join: a nil reader at every index of the full d+p reader list (parity positions are not considered)
+    for (d, p) in [(2, 1), (3, 2), (4, 2)]:
+        for i in range(d + p):
+            for out in [1, d * 50 - 1, d * 50]:
+                ops.append((f"guard sjoin {d} {p} 50 {out} {d+p} nilr:{i} {rng.randrange(1, 1<<30)}", {"cat": "stream-join-nil"}))
+    # ReconstructSome, exhaustive over small shapes: every present/missing pattern x every `required` mask of EVERY length
+    # 0 .. total+1 (also the lengths strictly between DataShards and TotalShards) x every bit pattern
+    for (fam, d, p, sz) in [("default", 2, 3, "10"), ("leo8", 2, 2, "64")] + ([("default", 3, 2, "10"), ("leo16", 2, 2, "64")] if tier == "thorough" else []):
+        for sh in itertools.product(["n", sz], repeat=d + p):
+            for L in range(0, d + p + 2):
+                for bits in itertools.product([0, 1], repeat=L):
+                    req = [i for i in range(L) if bits[i]]
+                    ops.append((f"api {fam} {d} {p} rec some {L}:{lst(req)} {','.join(sh)}", {"cat": "grid-rec-some"}))
     # stream calls whose readers / writers fail, sequential and concurrent I/O, under the watchdog: a documented error,
     # never a hang or a leaked goroutine (the fault grammar and the model's answers are C15's)
     from . import c15
